@@ -258,7 +258,8 @@ def best_cases(draw):
         for _ in range(draw(st.integers(1, 3))):
             outside.append([draw(st.integers(0, len(hs["idx"]) - 1)), draw(st.integers(0, d - 1)),
                             draw(st.sampled_from([-1, 1])), draw(st.integers(1, 6))])
-    return {"space": sp, "sampler": s, "history": hs, "outside": outside}
+    # the public option may also be (re)assigned after construction
+    return {"space": sp, "sampler": s, "history": hs, "outside": outside, "range_assigned_later": draw(st.integers(0, 3)) == 0}
 
 
 def check_best(ctx: Ctx, case):
@@ -281,7 +282,11 @@ def check_best(ctx: Ctx, case):
     ctx.count(sub, case, bool(ties or on_bound or np.any(np.abs(losses) >= F32MAX)),
               ["ties" if ties else "no-ties", "bound" if on_bound else "interior", f"range={R}"] +
               (["parent-outside-space"] if any(i in parents for i, _, _, _ in case.get("outside", [])) else []))
-    sampler = gen.make_sampler(s)
+    if case.get("range_assigned_later"):
+        sampler = gen.make_sampler(dict(s, prange=R + 4))
+        sampler.perturbation_range = R
+    else:
+        sampler = gen.make_sampler(s)
     with guard(ctx, "C16/exception", sub, case):
         out = sampler.sample(space, pts, losses)
     if out.shape != (bs, space.dims):
